@@ -96,6 +96,8 @@ pub fn case_strategy() -> impl Strategy<Value = Case> {
                 2 => (0xFEu8..=0xFF, 0u8..3).prop_map(|(a, r)| Tm::StAbs(a, r)),
                 1 => (0u8..3).prop_map(Tm::Push),
                 1 => (0u8..3).prop_map(Tm::Pop),
+                1 => (0u8..4).prop_map(Tm::Ei),
+                1 => (0u8..4).prop_map(Tm::Di),
             ],
             1..40,
         ),
@@ -193,6 +195,12 @@ fn check_power_on(m: &Machine, which: &str) -> Res {
     }
     if s.pending_edge_interrupt {
         return f("pending-key-interrupt", "pending key interrupt survived the reset".into());
+    }
+    if s.pending_level_interrupt != fresh.pending_level_interrupt {
+        return f("pending-level-interrupt", "a latched level interrupt survived the reset".into());
+    }
+    if s != fresh {
+        return f("control-state", format!("private control state after the reset differs from power-on: {:?} vs {:?}", s, fresh));
     }
     if s.alu_output != fresh.alu_output || s.last_bus_read != fresh.last_bus_read {
         return f("latches", format!("ALU latch / bus latch after reset: {:?} / {:02X}", s.alu_output, s.last_bus_read));
@@ -363,6 +371,23 @@ fn check_load(m: &Machine, c: &Case, edges: usize) -> Result<u64, (String, Strin
     for i in 0..4u8 {
         set_input(&mut a, i, c.follow_inputs[i as usize]);
         set_input(&mut fresh, i, c.follow_inputs[i as usize]);
+    }
+    // the same follow-up program stepped in Assembly mode on clones (state hidden from the getters
+    // and from PartialEq that survives a load would show here)
+    {
+        let (mut a2, mut f2) = (a.clone(), fresh.clone());
+        a2.set_step_mode(StepMode::Assembly);
+        f2.set_step_mode(StepMode::Assembly);
+        for k in 0..40 {
+            a2.trigger_key_clock();
+            f2.trigger_key_clock();
+            if a2.registers().content() != f2.registers().content() || a2.state() != f2.state() || a2.bus().memory()[..] != f2.bus().memory()[..] || a2.is_instruction_done() != f2.is_instruction_done() {
+                return f("follow-up-diverges-in-assembly-steps", format!("assembly step {}: loaded machine and fresh machine differ (regs {:02X?} vs {:02X?}, state {:?} vs {:?})", k, a2.registers().content(), f2.registers().content(), a2.state(), f2.state()));
+            }
+            if a2.state() != State::Running {
+                break;
+            }
+        }
     }
     for e in 0..edges {
         a.trigger_key_clock();
